@@ -16,12 +16,12 @@ EXPLANATION = (
     "Decided (static, MIR): C14.1 overwriting operations truncate: the OpenOptions reaching open() in fs::write and File::copy have write, create and truncate set; "
     "C14.2 open-flag decision tables: get_access_mode and get_creation_mode are extracted as tables over (read, write, append) / (write, append, create, truncate, create_new) by walking every CFG path "
     "and compared row by row with std::fs::OpenOptions semantics (O_RDONLY/O_WRONLY/O_RDWR, |O_APPEND, O_CREAT, O_TRUNC, O_CREAT|O_EXCL, the error rows); open_with_options ORs in O_CLOEXEC and passes mode; "
-    "C14.3 a Vec made by with_capacity and filled through its raw pointer is only viewed (as_mut_slice/as_slice/len) after set_len; "
+    "(builder side: every OpenOptions setter stores its argument in the option of its own name and OpenOptions::new starts with every option off); C14.3 a Vec made by with_capacity and filled through its raw pointer is only viewed (as_mut_slice/as_slice/len) after set_len; "
     "C14.4 create_dir_all: every Ok of the helper is dominated by a mkdir of the whole path, a failing mkdir is only forgiven for EEXIST, and each ancestor prefix ends at a separator it temporarily replaced by NUL and restores; "
     "C14.5 remove_all descends only into entries whose d_type is Directory and which are not `.`/`..`, removes everything else with unlink_at relative to its own descriptor WITHOUT AT_REMOVEDIR (links are removed, never followed), "
     "removes a sub-directory with AT_REMOVEDIR only after the recursion returned, uses the entry's own name, and remove_dir_all removes the root last; "
     "C14.6 ReadDir::next advances by exactly the parsed d_reclen, refills only when offset == read_size, hands the whole buffer to getdents, that buffer holds the longest possible entry (19 + 255 + NUL, 8-aligned = 280 bytes) and iteration stops at 0; Dirent::try_from_bytes reads reclen at 16..18, d_type at 18, the name from 19; "
-    "DirEntry::file_type maps each DT_* to the like-named variant; C14.7 fs::write delivers with write_all resolved to the trait's provided loop (the one verified under C15, not an override), File::copy uses one offset for source and destination advanced by exactly the returned count. "
+    "DirEntry::file_type maps each DT_* to the like-named variant; C14.7 fs::write delivers with write_all resolved to the trait's provided loop (the one verified under C15, not an override), File's own read/write make one system call on its descriptor with the caller's whole buffer and return its count, fs::read / fs::read_to_string fill one buffer with the provided read_to_end / read_to_string and return it, File::copy uses one offset for source and destination advanced by exactly the returned count. "
     "NOT decided: the post-conditions as observed on a real file system for all trees and histories, copy_file_range semantics, races with other processes.")
 ASSUMPTIONS = ["reference table = std::fs::OpenOptions semantics", "linux_dirent64 layout (ino 8, off 8, reclen 2, type 1, name)", "bool::then/Option plumbing as in std"]
 
@@ -397,6 +397,62 @@ def run_one(ck, prog):
                 got[key] = v[2]
         ck.ob("C14.6", "d_type-table", got == want, fn=ft[0]["path"], detail=f"d_type -> FileType table {got}; linux DT_* values require {want}")
         ck.floor("C14.6", "DT arms", len(got), 7)
+
+    # ---- C14.2 (builder side) every OpenOptions setter stores its argument in the option of its own name, OpenOptions::new starts from
+    # "nothing requested", and File's Read/Write hand the caller's buffer to the descriptor's own read/write and return its count
+    n_set = 0
+    for nm, field in (("read", "read"), ("write", "write"), ("append", "append"), ("truncate", "truncate"), ("create", "create"), ("create_new", "create_new"), ("custom_flags", "flags"), ("mode", "mode")):
+        sf = prog.fns.get(OO + nm)
+        if sf is None:
+            continue
+        n_set += 1
+        sc2 = prog.ctx(sf)
+        stores = []
+        for b in sf["blocks"]:
+            if b.get("cleanup") or b["id"] not in sc2.cfg.live_blocks():
+                continue
+            for i, st in enumerate(b["stmts"]):
+                if st["k"] == "assign" and st["dst"].get("p") and st["dst"]["l"] == 1 and st["dst"]["p"][0]["k"] == "deref" and len(st["dst"]["p"]) == 2 and st["dst"]["p"][1]["k"] == "field":
+                    stores.append((st["dst"]["p"][1].get("n"), canon(strip_casts(sc2.prov.rvalue(st["rv"], (b["id"], i))))))
+        ck.ob("C14.2", f"setter|{nm}-stores-its-argument-in-{field}", stores == [(field, "p2")], fn=sf["path"],
+              detail=f"OpenOptions::{nm}(v) must be exactly `self.{field} = v`; found the stores {stores}")
+    ck.floor("C14.2", "OpenOptions setters", n_set, 8)
+    nf = prog.fns.get(OO + "new")
+    if ck.anchor("C14.2", "OpenOptions::new", nf):
+        nc = prog.ctx(nf)
+        init = {}
+        for b in nf["blocks"]:
+            for i, st in enumerate(b["stmts"]):
+                if st["k"] == "assign" and st["rv"]["k"] == "agg" and (st["rv"].get("adt") or "").endswith("fs::OpenOptions"):
+                    init = dict(zip(st["rv"]["fields"], [fold(nc.prov.operand(o, (b["id"], i))) for o in st["rv"]["ops"]]))
+        flags_off = [k for k in ("read", "write", "append", "truncate", "create", "create_new") if init.get(k) not in (0, False)]
+        ck.ob("C14.2", "new|nothing-requested", bool(init) and not flags_off, fn=nf["path"], detail=f"OpenOptions::new must start with every access/creation option off; on at start: {flags_off} (initial values {init})")
+    for tr, callee in (("Read>::read", "unistd::read::read"), ("Write>::write", "unistd::write::write")):
+        ff = [f for p_, f in prog.fns.items() if p_ == f"<tiny_std::fs::File as tiny_std::io::{tr}"]
+        if not ck.anchor("C14.7", f"File {tr}", ff or None):
+            continue
+        fc = prog.ctx(ff[0])
+        sites = [bb for bb, t in fc.cfg.calls(lambda t: (t.get("callee") or "").endswith(callee))]
+        okio = len(sites) == 1 and len(fc.args(sites[0])) >= 2 and mentions(fc.args(sites[0])[0], fc.prov, lambda z: z[0] == "param" and z[1] == 1) and canon(strip_casts(fc.args(sites[0])[1])).replace("*", "").replace("&", "") == "p2"
+        rets_ok = any(mentions(r, fc.prov, lambda z: z[0] == "call" and z[3] == (sites[0] if sites else -1)) for r in fc.ret_expr().values()) and \
+            not any(mentions(r, fc.prov, lambda z: z[0] == "bin") for r in fc.ret_expr().values())
+        ck.ob("C14.7", f"file-{tr.split('::')[-1]}|whole-buffer-to-the-descriptor-count-returned", okio and rets_ok, fn=ff[0]["path"],
+              detail="File's read/write must make one system call on its own descriptor with the caller's whole buffer and return that call's count unchanged (the transfer loops of C15 rely on it)")
+    for nm, meth in (("read", "Read::read_to_end"), ("read_to_string", "Read::read_to_string")):
+        rf = prog.fns.get("tiny_std::fs::" + nm)
+        if rf is None:
+            continue
+        rc = prog.ctx(rf)
+        calls = [bb for bb, t in rc.cfg.calls(lambda t: (t.get("callee") or "").endswith(meth))]
+        opens = [bb for bb, t in rc.cfg.calls(lambda t: (t.get("callee") or "").endswith("fs::File::open"))]
+        res = (rc.cfg.term(calls[0]).get("resolved") or rc.cfg.term(calls[0]).get("callee")) if calls else None
+        okr = len(calls) == 1 and len(opens) == 1 and res == "tiny_std::io::" + meth and mentions(rc.args(opens[0])[0], rc.prov, lambda z: z[0] == "param" and z[1] == 1)
+        # the value handed back is the very buffer the loop filled
+        filled = rc.args(calls[0])[1] if calls else None
+        oks = [v for v in rc.ret_expr().values()]
+        same = filled is not None and any(mentions(v, rc.prov, lambda z: z[0] == "place" and mentions(filled, rc.prov, lambda w: w[0] == "place" and w[1] == z[1])) for v in oks)
+        ck.ob("C14.7", f"{nm}|whole-file-through-the-checked-loop", okr and same, fn=rf["path"],
+              detail=f"fs::{nm} must open the given path, fill one buffer with the trait's provided {meth.split('::')[-1]} (resolved: {res}) and return that buffer")
 
     # ---- C14.7 write_all / copy cursor ---------------------------------------------------------------------------------------------------------
     w = prog.fns.get("tiny_std::fs::write")
